@@ -19,6 +19,7 @@ TIMEOUT = {'quick': 600, 'thorough': 3000}
 ALL = [(e, k) for e in 'AB' for k in walk.TRIGGER_KINDS]
 WALK_CONFS = [{}, {}, dict(child_a={'encr': ['aes128'], 'integ': ['sha1'], 'dh': ['19']}), dict(mode='tunnel', a_subnet='10.1.0.0/24', b_subnet='10.2.0.0/24'),
               dict(v6=True), dict(ipsec_proto='ah'), dict(auth='rsa'),
+              dict(mode='tunnel', a_subnet='fd00:a::/64', b_subnet='fd00:b::/64'), dict(v6=True, mode='tunnel', a_subnet='10.1.0.0/24', b_subnet='10.2.0.0/16', ipsec_proto='ah'),
               dict(ike_a={'encr': ['aes256'], 'integ': ['sha256'], 'prf': ['sha256'], 'dh': ['19', '20']}, ike_b={'encr': ['aes256'], 'integ': ['sha256'], 'prf': ['sha256'], 'dh': ['20', '19']}),
               dict(child_a={'encr': ['aes256'], 'integ': ['sha256'], 'dh': ['14', '19']}, child_b={'encr': ['aes256'], 'integ': ['sha256'], 'dh': ['19', '14']})]
 
